@@ -146,12 +146,30 @@ Theorem reaction_routes_agree_R (t : tree X) :
   map (fun r => (fst (fst r), snd r)) (flatten (react_fb KR AR nd dy t))
   = map (fun r => (fst r, snd (snd r))) (flatten (react_art KR AR nd dy t)).
 Proof. eapply reaction_routes_agree; laws. Qed.
+(** calcTreeEquivalentMobilityForces = J^T (F - F_inertial) = -(zero-acceleration residual + f), in weak form *)
+Theorem equiv_weak_R (v : X -> list R) (t : tree X) :
+  tsum (tmap (fun r => dotU KR (snd r) (v (fst (fst r)))) (equivf KR AR nd dy t))
+  = tsum (tmap (fun xw => dot KR (equiv_force KR AR nd dy (fst xw)) (snd xw))
+                (mulJ KR (fun xv => nd (fst xv)) (fun xv => v (fst xv)) (rnea_acc KR nd dy (fun _ => []) t))).
+Proof. eapply equiv_weak; laws. Qed.
+Theorem equiv_is_minus_bias_residual_R (v : X -> list R) (t : tree X) :
+  tsum (tmap (fun r => dotU KR (snd r) (v (fst (fst r)))) (equivf KR AR nd dy t))
+  + tsum (tmap (fun r => dotU KR (snd r) (v (fst (fst (fst r))))) (rnea KR AR nd dy (fun _ => []) t))
+  = - tsum (tmap (fun xa => dotU KR (d_f (dy (fst xa))) (v (fst xa))) (rnea_acc KR nd dy (fun _ => []) t)).
+Proof. eapply equiv_is_minus_bias_residual; laws. Qed.
+
 (** uniqueness: mobility accelerations with zero inverse-dynamics residual are exactly what forward dynamics returns *)
 Theorem fd_unique_R (ud : X -> list R) (t : tree X) :
   (forall y, In y (flatten (abi_pass KR AR nd t)) -> node_ok_l KR nd dy ud y) ->
   Forall (fun r => snd r = map (fun _ => 0) (n_H (nd (fst (fst (fst r)))))) (flatten (rnea KR AR nd dy ud t)) ->
   Forall (fun w : WTR => w_ud w = ud (w_x w)) (flatten (fd KR AR nd dy t)).
 Proof. eapply fd_unique; laws. Qed.
+(** M u = f  implies  M^-1 f = u *)
+Theorem mulMInv_mulM_id_R (u : X -> list R) (t : tree X) :
+  (forall y, In y (flatten (abi_pass KR AR nd t)) -> node_ok_l KR nd dy u y) ->
+  Forall (fun r => snd r = d_f (dy (fst (fst r)))) (flatten (mulM KR nd u t)) ->
+  Forall (fun w : WTR => w_ud w = u (w_x w)) (flatten (mulMInv KR AR nd dy t)).
+Proof. eapply mulMInv_mulM_id; laws. Qed.
 End C02R.
 
 (** ** the per-body hypothesis for small mobility spaces *)
